@@ -220,10 +220,10 @@ def side_ok(st):
     return z3.And(*[c for _, c, _ in st.side]) if st.side else z3.BoolVal(True)
 
 
-def decide_claim(ctx, res, env, st, claim, extra_assumptions=(), what=''):
+def decide_claim(ctx, res, env, st, claim, extra_assumptions=(), what='', ignore_side=False):
     """Returns True if `claim` (and the exactness side-conditions of this path) hold for every value on this path."""
     assertions = list(env.assumptions) + list(st.assumed) + list(extra_assumptions) + list(st.pc)
-    goal = z3.And(claim, side_ok(st))
+    goal = claim if ignore_side else z3.And(claim, side_ok(st))
     verdict, model, dt = ctx.decider.check(assertions + [z3.Not(goal)])
     res.queries += 1
     res.claims += 1
@@ -1059,6 +1059,8 @@ def ob_reachable_gate(ctx, k, closed, bits):
             accepted = zs(out.discr == 0)
             reachable = z3.And(*[l >= 0 for l in legs])
             if not decide_claim(ctx, res, env, st, accepted == reachable, extra, what=f'{name} leg {p}: accepted <=> both new legs reachable'):
+                if res.model is not None:
+                    res.case = make_case('reachable', env, spec, res.model, target, p)
                 break
             if not no_panic(ctx, res, env, st, extra, what=name):
                 break
@@ -1249,6 +1251,147 @@ def ob_evaluate_with_constraints(ctx, n):
         if not no_panic(ctx, res, env, st, what=name):
             break
         res.witnesses += int(witness(ctx, res, env, st, z3.BoolVal(True)))
+    if res.status == 'holds' and res.witnesses == 0:
+        res.status, res.detail = 'inconclusive', 'vacuous'
+    res.time = time.time() - t0
+    return res
+
+
+def ob_deep_copy(ctx, k, closed):
+    """C05/C14: RouteContext::deep_copy (real MIR incl. Tour::deep_copy and Activity::deep_copy) yields a context with the
+    same activities, schedules and caches and - crucially - the SAME stale flag, so a modified-but-not-yet-recomputed tour
+    stays marked after copying; the copy's activities are distinct objects (writing the copy leaves the original alone)."""
+    name = f'deep_copy[k={k},{"closed" if closed else "open"}]'
+    res = Result(name)
+    res.bounds = f'route context with {k} job activities ({"closed" if closed else "open"}), symbolic schedules, caches and stale flag'
+    t0 = time.time()
+    env = drivers.Env(ctx.prog, ctx.layout, 16)
+    eng = symex.Engine(ctx.prog, ctx.layout, env)
+    fns = ctx.prog.find_method('RouteContext', 'deep_copy')
+    if len(fns) != 1:
+        raise Inconclusive('RouteContext::deep_copy not found')
+    holder = {}
+
+    def body(st):
+        env.assumptions.clear()
+        spec = TourSpec(env, k, closed)
+        rc = spec.build()
+        env.field(rc, 'context::RouteContext', 'cache').fields[0] = BV(z3.Bool('is_stale'))
+        env.state_of(rc).table['total_distance'] = env.sym_f('cached_td')
+        holder['orig'] = rc
+        return eng.exec_fn(st, fns[0], [RefV(Cell(rc), 0)])
+
+    paths = eng.explore(body)
+    res.paths = len(paths)
+    res.functions |= eng.functions_used
+    for st, out in paths:
+        if out is None:
+            if not no_panic(ctx, res, env, st, what=name):
+                break
+            continue
+        orig = holder['orig']
+        claims = [env.field(out, 'context::RouteContext', 'cache').fields[0].t == z3.Bool('is_stale')]
+        a0, a1 = env.tour_activities(orig), env.tour_activities(out)
+        res.claims += 1
+        if len(a0) != len(a1) or any(x is y for x, y in zip(a0, a1)):
+            res.status, res.detail = 'violated', 'copy shares activity objects with the original or has a different length'
+            break
+        for x, y in zip(a0, a1):
+            for path in ('schedule.arrival', 'schedule.departure', 'place.duration', 'place.time.start', 'place.time.end'):
+                claims.append(f_eq(env.act_field(x, path), env.act_field(y, path)))
+            claims.append(env.act_field(x, 'place.location').t == env.act_field(y, 'place.location').t)
+        td = env.state_of(out).table.get('total_distance')
+        claims.append(f_eq(td, env.sym_f('cached_td')) if td is not None else z3.BoolVal(False))
+        if not decide_claim(ctx, res, env, st, z3.And(*claims), what=f'{name}: copy equals original incl. stale flag'):
+            break
+        if not no_panic(ctx, res, env, st, what=name):
+            break
+        res.witnesses += int(witness(ctx, res, env, st, z3.Bool('is_stale')))
+    if res.status == 'holds' and res.witnesses == 0:
+        res.status, res.detail = 'inconclusive', 'vacuous'
+    res.time = time.time() - t0
+    return res
+
+
+def ob_time_aware_provider(ctx, n_ts):
+    """C16: TimeAwareMatrixTransportCost (real MIR of interpolate_distance / interpolate_duration): at a matrix timestamp
+    the matrix value is returned, before the first / after the last timestamp the first / last matrix is used, in between
+    the distance is the LEFT matrix value; durations are multiplied by the profile scale (scale 1 here). The in-between
+    duration (a floating-point quotient) is outside this back end."""
+    from symex import MapV
+    name = f'time_aware_provider[timestamps={n_ts}]'
+    res = Result(name)
+    res.bounds = (f'{n_ts} strictly increasing symbolic integer timestamps, 2x2 matrices with symbolic entries, every (from,to), symbolic query time; '
+                  f'scale 1; in-between durations not decided (division)')
+    t0 = time.time()
+    size = 2
+    fd = ctx.prog.find_method('TimeAwareMatrixTransportCost', 'interpolate_distance')
+    fu = ctx.prog.find_method('TimeAwareMatrixTransportCost', 'interpolate_duration')
+    if len(fd) != 1 or len(fu) != 1:
+        raise Inconclusive('TimeAwareMatrixTransportCost::interpolate_* not found')
+    for which, fn in (('distance', fd[0]), ('duration', fu[0])):
+        for frm in range(size):
+            for to in range(size):
+                env = drivers.Env(ctx.prog, ctx.layout, 16)
+                env.havoc_div = True
+                eng = symex.Engine(ctx.prog, ctx.layout, env)
+                holder = {}
+
+                def body(st, env=env, eng=eng, holder=holder, fn=fn, frm=frm, to=to):
+                    env.assumptions.clear()
+                    ts = [env.sym_i(f'ts{i}', 0, 2 ** 16, 'u64') for i in range(n_ts)]
+                    for a, b in zip(ts, ts[1:]):
+                        env.assumptions.append(a.t < b.t)
+                    mats = []
+                    vals = []
+                    for i in range(n_ts):
+                        dur = [env.sym_f(f'dur{i}_{c}') for c in range(size * size)]
+                        dist = [env.sym_f(f'dist{i}_{c}') for c in range(size * size)]
+                        vals.append((dur, dist))
+                        mats.append(env.struct('costs::MatrixData', index=IV(0), timestamp=mk_option(True, FV(False, ts[i].t), ty='Option<f64>'),
+                                               durations=VecV(dur), distances=VecV(dist)))
+                    q = env.sym_f('query_time')
+                    holder.update(ts=ts, vals=vals, q=q)
+                    provider = env.struct('costs::TimeAwareMatrixTransportCost', costs=MapV({0: Agg('tuple', [VecV(ts), VecV(mats)])}), size=IV(size),
+                                          fallback=Opaque('NoFallback'))
+                    profile = env.struct('domain::Profile', index=IV(0), scale=FV.const(1))
+                    tt = EnumV('costs::TravelTime', 1, {1: [q]})
+                    return eng.exec_fn(st, fn, [RefV(Cell(provider), 0), RefV(Cell(profile), 0), IV(frm), IV(to), tt])
+
+                paths = eng.explore(body)
+                res.paths += len(paths)
+                res.functions |= eng.functions_used
+                for st, out in paths:
+                    if out is None:
+                        if not no_panic(ctx, res, env, st, what=name):
+                            break
+                        continue
+                    ts, vals, q = holder['ts'], holder['vals'], holder['q']
+                    cell = frm * size + to
+                    sel = 1 if which == 'distance' else 0
+                    claims = []
+                    for i in range(n_ts):
+                        claims.append(z3.Implies(q.v == ts[i].t, f_eq(out, vals[i][sel][cell])))
+                    claims.append(z3.Implies(q.v < ts[0].t, f_eq(out, vals[0][sel][cell])))
+                    claims.append(z3.Implies(q.v > ts[-1].t, f_eq(out, vals[-1][sel][cell])))
+                    if which == 'distance':
+                        for i in range(n_ts - 1):
+                            claims.append(z3.Implies(z3.And(q.v > ts[i].t, q.v < ts[i + 1].t), f_eq(out, vals[i][sel][cell])))
+                    if st.tainted and which == 'duration':
+                        # in-between duration: only the bracket selection is checked through the path condition
+                        claims = [z3.Or(*[z3.And(q.v > ts[i].t, q.v < ts[i + 1].t) for i in range(n_ts - 1)])]
+                    if not decide_claim(ctx, res, env, st, z3.And(*claims), what=f'{name}: {which}({frm},{to}) equals the specified matrix value',
+                                        ignore_side=st.tainted):
+                        break
+                    if not no_panic(ctx, res, env, st, what=name):
+                        break
+                    res.witnesses += int(witness(ctx, res, env, st, z3.BoolVal(True)))
+                if res.status != 'holds':
+                    break
+            if res.status != 'holds':
+                break
+        if res.status != 'holds':
+            break
     if res.status == 'holds' and res.witnesses == 0:
         res.status, res.detail = 'inconclusive', 'vacuous'
     res.time = time.time() - t0
